@@ -1,6 +1,6 @@
 SPECIFICATION Spec
 CONSTANTS
-  Names <- NamesQuick
+  Names <- NamesLife
   Vers <- VersQuick
   Msgs <- MsgsOne
   MacroMsgs <- MacroMsgsQuick
